@@ -316,5 +316,46 @@ func main() {
 			})
 			t.Outcome("delivered-as-model")
 		})
+
+		// A transport error that calls itself temporary (EAGAIN-like; a deadline that the
+		// application then extends) exactly at a frame boundary - no byte of the next frame has
+		// been taken - after which the application simply repeats the call: everything is still
+		// delivered as the model says.
+		r.Part("E6-transient-error-at-a-frame-boundary-then-retry", func(t *explore.T) {
+			all := collect(t.Pick(3, 4), smallCtl)
+			retry := []drivers.Driver{drivers.ReaderLoop(7), drivers.ReaderLoop(1), drivers.ReaderLazyHandler(0)}
+			t.Par(len(all), func(i int) {
+				st := all[i]
+				data, ends := streams.Wire(st.frames)
+				for bi := -1; bi < len(ends)-1; bi++ {
+					at := 0
+					if bi >= 0 {
+						at = ends[bi]
+					}
+					for _, d := range retry {
+						for _, timeout := range []bool{false, true} {
+							at, d, timeout := at, d, timeout
+							t.Do(func() string {
+								return fmt.Sprintf("%s %s driver=%s transient error (timeout=%v) at offset %d, call repeated", st.side, streams.Describe(st.frames), d.Name, timeout, at)
+							}, func() *explore.Fail {
+								src := env.NewSrc(data)
+								src.HiccupAt, src.HiccupErr = at, env.TempErr{IsTimeout: timeout}
+								var res drivers.Result
+								d.Run(src, st.side, drivers.Cfg{}, &res)
+								if res.Retries == 0 {
+									return explore.Failf("transient-error-not-reported:"+d.Name, "the transport failed once at offset %d but no call returned the error", at)
+								}
+								if f := judge(d, st, &res, src); f != nil {
+									f.Sig = "after-transient-error:" + f.Sig
+									return f
+								}
+								return nil
+							})
+						}
+					}
+				}
+			})
+			t.Outcome("delivered-as-model")
+		})
 	})
 }
